@@ -40,14 +40,15 @@ ParityIsSpec(e) ==
 Clauses(e) ==
   << << "C07.nil_error_means_original", e.err = "" => e.restored >>,
      << "C07.too_few_iff_typed_error", (~Within(e)) <=> e.err = "notenough" >>,
-     << "C07.error_is_typed", e.err \in {"", "notenough", "singular"} >>,
-     << "C07.cauchy_within_capability", (e.coder = "cauchy" /\ Within(e)) => e.err = "" >>,
-     << "C07.vandermonde_iff_solvable", (e.coder = "vandermonde" /\ Within(e)) => (e.err = "" <=> SolvableE(e)) >>,
+     \* rounds with garbage in a SPARE parity shard (e.garbage): only the two universal clauses apply
+     << "C07.error_is_typed", e.garbage \/ e.err \in {"", "notenough", "singular"} >>,
+     << "C07.cauchy_within_capability", (e.coder = "cauchy" /\ Within(e) /\ ~e.garbage) => e.err = "" >>,
+     << "C07.vandermonde_iff_solvable", (e.coder = "vandermonde" /\ Within(e) /\ ~e.garbage) => (e.err = "" <=> SolvableE(e)) >>,
      << "C07.supplied_shards_untouched", e.supplied_unchanged >>,
      << "C07.parity_is_specified_sum", e.haswords => ParityIsSpec(e) >> >>
 
 Failed(e) == LET c == Clauses(e) IN {c[i][1] : i \in {j \in 1 .. Len(c) : ~c[j][2]}}
-Drift(e) == e.expect # "none" /\ e.expect # e.err
+Drift(e) == e.expect # "none" /\ e.expect # e.err /\ ~e.garbage
 
 Init == l = 1
 Next == /\ l <= Len(Trace)
